@@ -19,8 +19,6 @@ func init() {
 					{Fn: "Harness_C17_src_fields", Tiers: "both", Reach: []string{"end"}, Bounds: "source level: 6 presets x exchange of two fields inside struct t1 (3 pairs) or of the two embedded fields of the embedding diamond d1"},
 					{Fn: "Harness_C17_src_repeat", Tiers: "both", Reach: []string{"end"}, Bounds: "source level: 6 presets; analysis repeated on the same and on freshly loaded syntax"},
 					{Fn: "Harness_C17_src_monotone", Tiers: "both", Reach: []string{"end"}, Bounds: "source level: 6 presets x one of 19 reference forms added to the exported function"},
-					{Fn: "Harness_C17_results_k4", Tiers: "thorough", Reach: []string{"end"}, Bounds: "root + 4 objects, uses out-degree <= 2, all 24 numberings"},
-					{Fn: "Harness_C17_merge_k4", Tiers: "thorough", Reach: []string{"end"}, Bounds: "root + 4 objects through Merge, uses out-degree <= 2"},
 				},
 			}, {
 				PkgPath: "honnef.co/go/tools/lintcmd", PkgDir: "lintcmd", PkgName: "lintcmd",
